@@ -126,37 +126,34 @@ Theorem C17_input_completion : forall L R (swap : bool),
                            end.
 Proof. exact input_completion_lr. Qed.
 
-(* what check_input_section returns holds the user's values (the statement refuted on the tree
-   as found, see C17_regression_empty_dict below) *)
-Theorem C17_user_values_kept : forall fs L R (swap : bool) cfg side key v,
-  py_keys (JDict L) -> py_keys (JDict R) ->
-  let sides := if swap then [("right", JDict R); ("left", JDict L)] else [("left", JDict L); ("right", JDict R)] in
-  let user := JDict [("input", JDict sides)] in
+(* EVERY USER VALUE IS KEPT, any outline (the statement refuted on the tree as found, see
+   C17_regression_empty_dict below): for EVERY user configuration (a Python value: each dictionary
+   has each key once) -- extra keys at any level, sides in any order or missing, any values --
+   whenever check_input_section returns, the value the user gave for a key of the left / right
+   section is in the returned configuration ("NaN" / "inf" / "-inf" read as numbers) *)
+Theorem C17_user_values_kept : forall fs user cfg side key v,
+  py_keys user ->
   pandora_check_input_section fs user = Ok cfg -> side = "left" \/ side = "right" ->
   field user side key = Some v -> field cfg side key = Some (kept v).
 Proof.
-  intros fs L R swap cfg side key v PL PR sides user H S F.
+  intros fs user cfg side key v PY H S F.
   apply check_input_section_spec in H as [U _].
-  destruct (C17_input_completion L R swap PL PR) as (cfg' & U' & K).
-  fold sides in U'. fold user in U'. rewrite U in U'. inversion U'; subst cfg'.
-  rewrite (K side key S). fold sides. fold user. now rewrite F.
+  exact (user_values_kept user cfg side key v PY U S F).
 Qed.
 
-(* ... and a dictionary is none of the documented values: a section that gives one for any key
-   of either side is refused (the user's {} or {...} is kept by update_conf and the schema
-   refuses it).  [interval_bool_free] as in C17_check_input_iff_documented. *)
-Theorem C17_dict_value_refused : forall fs L R (swap : bool) cfg side key v,
-  py_keys (JDict L) -> py_keys (JDict R) ->
-  let sides := if swap then [("right", JDict R); ("left", JDict L)] else [("left", JDict L); ("right", JDict R)] in
-  let user := JDict [("input", JDict sides)] in
-  interval_bool_free cfg = true ->
+(* ... and NO ACCEPTED CONFIGURATION GIVES A DICTIONARY for a key of the left / right section: the
+   user's {} or {...} is kept by update_conf and the json-checker validation (against whichever of
+   the four schemas is selected) refuses it, whatever the key, the file system and the rest of
+   the configuration.  No guard. *)
+Theorem C17_dict_value_refused : forall fs user cfg side key v,
+  py_keys user ->
   pandora_check_input_section fs user = Ok cfg -> side = "left" \/ side = "right" ->
   field user side key = Some v -> is_dict v = false.
 Proof.
-  intros fs L R swap cfg side key v PL PR sides user NB H S F.
-  pose proof (C17_user_values_kept fs L R swap cfg side key v PL PR H S F) as K.
-  apply (C17_check_input_iff_documented fs user cfg NB) in H as [_ D].
-  rewrite <- is_dict_kept. exact (documented_no_dict fs cfg side key (kept v) D S K).
+  intros fs user cfg side key v PY H S F.
+  pose proof (C17_user_values_kept fs user cfg side key v PY H S F) as K.
+  apply check_input_section_spec in H as [_ C].
+  rewrite <- is_dict_kept. exact (completed_no_dict fs cfg side key (kept v) C S K).
 Qed.
 
 Definition two_files (p : string) : option finfo :=
